@@ -51,7 +51,8 @@ def case_run(draw: Any, tier: str = "quick") -> dict[str, Any]:
     kinds = list(programs.SAMPLER_KINDS) + (["gp"] if tier == "thorough" else [])
     sampler = draw(programs.sampler_spec(kinds))
     prog = draw(programs.program(discrete_only=sampler["kind"] == "brute"))
-    pruner = draw(programs.pruner_spec())
+    # (NSGA-II/III under HyperbandPruner raise KeyError/IndexError on every storage: not generated, see DESIGN.md)
+    pruner = draw(programs.pruner_spec([k for k in programs.PRUNER_KINDS if not (k == "hyperband" and sampler["kind"] in ("nsgaii", "nsgaii_sbx", "nsgaiii"))]))
     n = draw(st.integers(6, 24 if sampler["kind"] != "gp" else 10))
     variants = draw(st.lists(st.sampled_from(VARIANT_KINDS), min_size=3, max_size=4, unique=True))
     return {
